@@ -327,10 +327,12 @@ class IntroVisitor(ast.NodeVisitor):
         # _logger.debug(f"visit_call: call name is {n}")
         if n is not None:
             self._store_names.add(n)
-        # This is a bit brute-force (not working for multi-line function calls)
-        # but it should be good enough in practice for most cases.
+        # This is a bit brute-force but it should be good enough in practice for most cases.
+        # The context must cover all the lines of the call: the arguments of a call that spans
+        # several lines would otherwise not be part of the signature.
         # TODO: refine it based of the nested parse tree?
-        function_body_hash = dds_hash(self._body_lines[: node.lineno + 1])
+        last_line = max(node.lineno + 1, getattr(node, "end_lineno", None) or 0)
+        function_body_hash = dds_hash(self._body_lines[:last_line])
         # The list of all the previous interactions.
         # This enforces the concept that the current call depends on previous calls.
         function_inters_sig: Optional[PyHash] = dds_hash_commut(
